@@ -1,8 +1,10 @@
 package props
 
 import (
+	"bytes"
 	"errors"
 	"fmt"
+	"io"
 	"testing"
 
 	cose "github.com/veraison/go-cose"
@@ -27,6 +29,18 @@ type c04LayersCase struct {
 	Ext     int    `json:"ext"`      // 0 nil, 2 non-empty
 	Op      string `json:"op"`       // sign, verify
 	Decoded bool   `json:"decoded,omitempty"`
+	// FailAt (position + 1; sign only): the key at that position reports an error. Layers signed before keep
+	// what was signed: their protected header still encodes to the bytes their key was handed
+	FailAt int `json:"fail_at,omitempty"`
+}
+
+type c04FailingSigner struct{ *bridge.SpySigner }
+
+var errC04Key = errors.New("injected key failure")
+
+func (f c04FailingSigner) Sign(r io.Reader, content []byte) ([]byte, error) {
+	f.SpySigner.Sign(r, content)
+	return nil, errC04Key
 }
 
 var c04LayerAlgs = []int64{-7, -35, -8}
@@ -145,6 +159,9 @@ func checkC04Layers(c c04LayersCase) error {
 		default:
 			wantErr = true
 		}
+		if invoked[i] && c.FailAt == i+1 {
+			wantErr = true
+		}
 	}
 	if !wantErr {
 		failing = n
@@ -158,9 +175,27 @@ func checkC04Layers(c c04LayersCase) error {
 		for i := 0; i < n; i++ {
 			sp := &bridge.SpySigner{Alg: cose.Algorithm(c.keyAlg(i))}
 			spies = append(spies, sp)
-			ss = append(ss, sp)
+			if c.FailAt == i+1 {
+				ss = append(ss, c04FailingSigner{sp})
+			} else {
+				ss = append(ss, sp)
+			}
 		}
 		err = m.Sign(refcose.NewEntropy(nil), ext, ss...)
+		if c.FailAt != 0 {
+			// whatever was signed before the failure is still what its layer encodes to
+			for i := 0; i < n && i < c.FailAt-1; i++ {
+				if len(m.Signatures[i].Signature) == 0 || spies[i].NCalls() == 0 {
+					continue
+				}
+				now, perr := m.Signatures[i].Headers.MarshalProtected()
+				nd, derr := rc.Parse(spies[i].Last())
+				if perr != nil || derr != nil || len(nd.Items) < 3 || !bytes.Equal(now, nd.Items[2].Raw()) {
+					return finding("signed-header-changed-after-failure/layers", "SignMessage.Sign failed at signer %d; signer %d had been signed over the protected header %x, which now encodes to %x (err=%v): the stored signature no longer matches its layer (%+v)", c.FailAt-1, i, nd.Items[2].Raw(), now, perr, c)
+				}
+				stats.Class("layers/earlier-layer-intact-after-a-later-key-failed")
+			}
+		}
 		for i, sp := range spies {
 			calls[i] = sp.NCalls()
 			if calls[i] > 0 {
@@ -249,6 +284,15 @@ func TestC04_SignLayers(t *testing.T) {
 							stats.Eval()
 							stats.NTBytes([]byte(fmt.Sprintf("%+v", c)))
 							judge(t, "c04layers", c, checkC04Layers)
+							if op == "sign" && body == 0 {
+								for at := 1; at <= n; at++ {
+									c.FailAt = at
+									cells++
+									stats.Eval()
+									stats.NTBytes([]byte(fmt.Sprintf("%+v", c)))
+									judge(t, "c04layers", c, checkC04Layers)
+								}
+							}
 						}
 						if op == "verify" {
 							c := c04LayersCase{N: n, HdrAlg: hdr, BodyAlg: body, Ext: ext, Op: op, Decoded: true}
